@@ -1,6 +1,6 @@
 #!/usr/bin/env python3
 """Mechanical mutation sweep: an audit of the checks, not a registered check.
-usage: mutation_sweep.py <stream> <nstreams> [--only <regex on file>] [--limit N]
+usage: mutation_sweep.py <stream> <nstreams> [--only <regex on file>] [--limit N] [--ids <file of mutant ids>]
 Runs inside a private mount namespace in which scratch copies (/tmp/mut/s<k>/repo, /tmp/mut/s<k>/verif) are mounted over
 /repo and /verif, so the real trees are never touched and every path in the harness stays valid. For each mutant of its
 share: rewrite one source line, rebuild, run the quick checks anchored in that file first, then the other fast ones, then
@@ -11,6 +11,9 @@ stream, nstreams = int(sys.argv[1]), int(sys.argv[2])
 only = None; limit = None
 if "--only" in sys.argv: only = re.compile(sys.argv[sys.argv.index("--only") + 1])
 if "--limit" in sys.argv: limit = int(sys.argv[sys.argv.index("--limit") + 1])
+ids = None
+if "--ids" in sys.argv: ids = set(open(sys.argv[sys.argv.index("--ids") + 1]).read().split())
+RES = "recheck" if ids is not None else "results"
 PRISTINE = "/tmp/mut/pristine"          # untouched copy of the sources
 props = [json.loads(l) for l in open("/verif/properties.jsonl")]
 anch = {p["id"]: set(p["anchors"]["files"]) for p in props}
@@ -27,10 +30,11 @@ def order(file):
     return first + rest + slow
 
 muts = [json.loads(l) for l in open("/tmp/mut/all.jsonl")]
+if ids is not None: muts = [m for m in muts if m["id"] in ids]
 muts = [m for i, m in enumerate(muts) if i % nstreams == stream and (only is None or only.search(m["file"]))]
 if limit: muts = muts[:limit]
 done = set()
-resf = f"/tmp/mut/results_{stream}.jsonl"
+resf = f"/tmp/mut/{RES}_{stream}.jsonl"
 if os.path.exists(resf):
     done = {json.loads(l)["id"] for l in open(resf)}
 out = open(resf, "a")
